@@ -1,44 +1,51 @@
 (* C17 - translator obligations: the wrappers of symbol assignments, ENTRY, EXTERN, ASSERT and the required-symbol
    texts of the model's rendering are the format! templates that tools/rs2v.py reads from script_buffer.rs and
    linker_writer.rs on every run. *)
-From Slinky Require Import Model.Types Model.Generated Model.Style Model.Script Proofs.Tables.
+From Slinky Require Import Model.Types Model.Generated Model.Style Model.Script Proofs.TablesC17.
 Local Open Scope string_scope.
 
 Theorem C17_tables_script_buffer :
-  fmt_sb = [[""; " "; " : { *("; "); }"];
-            ["PROVIDE_HIDDEN("; " = "; ");"]; ["PROVIDE("; " = "; ");"]; ["HIDDEN("; " = "; ");"]; [""; " = "; ";"];
-            [""; " = ALIGN("; ", 0x"; ");"];
-            [""; " = MAX("; ", "; ");"];
-            ["ASSERT(("; "), ""Error: "; """);"];
-            ["EXTERN("; ");"]; ["DEFINED("; ")"]; ["Required symbol '"; "' was not linked"]].
-Proof. exact fmt_sb_expected. Qed.
+  t_sb_write_symbol_assignment_0_spec = [""; ""] /\
+  t_sb_write_symbol_assignment_1_spec = [""; ""] /\
+  t_sb_write_symbol_assignment_2_spec = [""; ""] /\
+  t_sb_write_symbol_assignment_3_spec = [""; ""] /\
+  t_sb_write_assert_0_spec = [""; ""] /\
+  t_sb_write_required_symbol_0_spec = [""] /\
+  t_sb_write_required_symbol_1_spec = [""] /\
+  t_sb_write_required_symbol_2_spec = [""] /\
+  t_lw_add_entry_0_spec = [""] /\
+  t_lw_begin_sections_0_spec = [":08X"] /\
+  t_lw_add_single_segment_0_spec = [":08X"] /\
+  t_lw_write_section_symbol_start_0_spec = [":X"].
+Proof. exact specs_C17. Qed.
 
 Theorem C17_tables_assign : forall p h sym v,
   render_assign p h sym v =
-  fmt (tpl fmt_sb (match p, h with true, true => 1 | true, false => 2 | false, true => 3 | false, false => 4 end))
+  fmt (match p, h with true, true => t_sb_write_symbol_assignment_0 | true, false => t_sb_write_symbol_assignment_1
+                   | false, true => t_sb_write_symbol_assignment_2 | false, false => t_sb_write_symbol_assignment_3 end)
       [sym; v].
 Proof. exact sb_assign. Qed.
 
 Theorem C17_tables_assert : forall ind c m,
-  render_stmt ind (SAssert c m) = [indent_str ind ++ fmt (tpl fmt_sb 7) [c; m]].
+  render_stmt ind (SAssert c m) = [indent_str ind ++ fmt t_sb_write_assert_0 [c; m]].
 Proof. exact sb_assert. Qed.
 
 Theorem C17_tables_extern : forall ind n,
-  render_stmt ind (SExtern n) = [indent_str ind ++ fmt (tpl fmt_sb 8) [n]].
+  render_stmt ind (SExtern n) = [indent_str ind ++ fmt t_sb_write_required_symbol_0 [n]].
 Proof. exact sb_extern. Qed.
 
 Theorem C17_tables_required_msg : forall n,
-  fmt (tpl fmt_sb 10) [n] = "Required symbol '" ++ n ++ "' was not linked".
+  fmt t_sb_write_required_symbol_2 [n] = "Required symbol '" ++ n ++ "' was not linked".
 Proof. exact sb_required_msg. Qed.
 
-Theorem C17_tables_entry : forall ind e, render_stmt ind (SEntry e) = [indent_str ind ++ fmt (tpl fmt_lw 1) [e]].
+Theorem C17_tables_entry : forall ind e, render_stmt ind (SEntry e) = [indent_str ind ++ fmt t_lw_add_entry_0 [e]].
 Proof. exact lw_entry. Qed.
 
 Theorem C17_tables_hardcoded_gp : forall ind v,
-  render_stmt ind (SAssign false false false "_gp" (EHex8 v)) = [indent_str ind ++ fmt (tpl fmt_lw 2) [hex8_of_N v]].
+  render_stmt ind (SAssign false false false "_gp" (EHex8 v)) = [indent_str ind ++ fmt t_lw_begin_sections_0 [hex8_of_N v]].
 Proof. exact lw_hardcoded_gp. Qed.
 
-Theorem C17_tables_gp_offset : forall off, render_expr (EDotPlus off) = fmt (tpl fmt_lw 13) [hex_of_i32 off].
+Theorem C17_tables_gp_offset : forall off, render_expr (EDotPlus off) = fmt t_lw_write_section_symbol_start_0 [hex_of_i32 off].
 Proof. exact lw_gp_offset. Qed.
 
 Print Assumptions C17_tables_script_buffer.
